@@ -1291,7 +1291,7 @@ class ClassNode(AstNode, NamespaceMixin):
             ]
         )
 
-    def add_namespace(self, **kwargs):
+    def add_namespace(self, name=None, **kwargs):
         """Replace method inherited from NamespaceMixin."""
         raise RuntimeError("Cannot add a namespace to a class")
 
